@@ -521,6 +521,76 @@ fn plist(args: &[String]) {
     out.flush().unwrap();
 }
 
+// ---------------------------------------------------------------------------------------
+// re-execution of stored failing probe records on the engine as it is now (./check --replay)
+
+fn json_field_string(line: &str, key: &str) -> Option<String> {
+    let k = format!("\"{}\":", key);
+    let at = line.find(&k)? + k.len();
+    let mut out = String::new();
+    let mut it = line[at..].trim_start().chars();
+    if it.next() != Some('"') {
+        return None;
+    }
+    while let Some(c) = it.next() {
+        match c {
+            '"' => break,
+            '\\' => match it.next() {
+                Some('n') => out.push('\n'),
+                Some('t') => out.push('\t'),
+                Some('r') => out.push('\r'),
+                Some('u') => {
+                    let h: String = (0..4).filter_map(|_| it.next()).collect();
+                    if let Some(ch) = u32::from_str_radix(&h, 16).ok().and_then(char::from_u32) {
+                        out.push(ch);
+                    }
+                }
+                Some(x) => out.push(x),
+                None => break,
+            },
+            x => out.push(x),
+        }
+    }
+    Some(out)
+}
+
+/// rerun <family> <stored records> <out>: notation records are re-parsed from their symbol list,
+/// diagram records from their text
+fn rerun(args: &[String]) {
+    let family = args[0].as_str();
+    let text = std::fs::read_to_string(&args[1]).expect("records");
+    let mut out = std::io::BufWriter::new(std::fs::File::create(&args[2]).unwrap());
+    for line in text.lines() {
+        if line.trim().is_empty() {
+            continue;
+        }
+        match family {
+            "notation" => {
+                if let Some(at) = line.find("\"s\":[") {
+                    let rest = &line[at + 5..];
+                    let end = rest.find(']').unwrap_or(0);
+                    let idx: Vec<usize> = rest[..end].split(',').filter_map(|x| x.trim().parse::<usize>().ok()).collect();
+                    if idx.iter().all(|&i| i >= 1 && i <= SYMS.len()) && !idx.is_empty() {
+                        let t: String = idx.iter().map(|&i| SYMS[i - 1]).collect();
+                        let sj: Vec<String> = idx.iter().map(|i| i.to_string()).collect();
+                        writeln!(out, "{{\"k\":\"rnd\",\"s\":[{}],\"txt\":{},{}}}", sj.join(","), json_str(&t), parse_all(&t)).unwrap();
+                    }
+                }
+            }
+            "diagram" => {
+                if let Some(t) = json_field_string(line, "txt") {
+                    diagram_case(&mut out, "mut", "\"n\":0", &t, None);
+                }
+            }
+            _ => {
+                eprintln!("rerun: unknown family");
+                std::process::exit(2);
+            }
+        }
+    }
+    out.flush().unwrap();
+}
+
 fn main() {
     let args: Vec<String> = std::env::args().collect();
     silence_panics();
@@ -533,6 +603,7 @@ fn main() {
         "hash" => hash(&args[2..]),
         "diagram" => diagram(&args[2..]),
         "plist" => plist(&args[2..]),
+        "rerun" => rerun(&args[2..]),
         x => {
             eprintln!("unknown probe family {}", x);
             std::process::exit(2);
